@@ -101,7 +101,8 @@ PROPS["C04"] = {
     "theorems": ["C04_threshold", "C04_coherence_range", "C04_percents", "C04_f32_not_ge_lt",
                  "C04_threshold_binary32", "C04_coherence_range_binary32", "C04_float_laws_hold_for_binary32",
                  "C04_valid_utf8_yields_match", "C04_mess_never_nan_or_negative", "C04_threshold_mess_modelled", "C04_md_shape_pinned",
-                 "C04_jaro_score_in_unit_interval", "C04_mean_of_unit_scores", "C04_coherence_in_unit_interval_modelled"],
+                 "C04_jaro_score_in_unit_interval", "C04_mean_of_unit_scores", "C04_coherence_in_unit_interval_modelled",
+                 "C04_pipeline_chaos", "C04_pipeline_coherence"],
     "model_targets": ["Model/Md32.vo"],
     "runs": [detect_run("C04", 300, 5000, bigq=1, bigt=8), MD_RUN, CD_RUN, E2E_RUN],
     "search": detect_search("C04"),
